@@ -10,8 +10,12 @@ package main
 //   schema <name>:<int|bigint|varchar|boolean> ...
 //   map <dst,dst,...> <src,src,...> <separator code point>
 //   csv <hex of the input bytes>
+//   program <hex of the first input> <hex of the second input>
 // Output (VERIF_CSV_OUT), per case: begin / types ... / rec|recerr ... /
 // ev ok|err ... / row ... / end.  The database lives under VERIF_CSV_DIR.
+// "program" runs the real main() twice, each time in a process of its own that
+// ends the way the program ends, then starts up as the console does
+// (InitStorage) and lists the table: begin / types / prec <run> ... / row ... / end.
 
 import (
 	"bufio"
@@ -21,6 +25,7 @@ import (
 	"fmt"
 	"io"
 	"os"
+	"os/exec"
 	"strings"
 	"testing"
 
@@ -45,6 +50,20 @@ func verifVal(v interface{}) string {
 		return "b:0"
 	}
 	return fmt.Sprintf("?%T", v)
+}
+
+// TestVerifCsvMain is the real program: main() with the arguments of VERIF_CSV_MAIN_ARGS,
+// reading stdin, in the current directory.  The process ends when main returns.
+func TestVerifCsvMain(t *testing.T) {
+	args := os.Getenv("VERIF_CSV_MAIN_ARGS")
+	if args == "" {
+		t.Skip("not the program run")
+	}
+	os.Args = append([]string{"csvimport"}, strings.Split(args, "\x1f")...)
+	null, _ := os.OpenFile(os.DevNull, os.O_WRONLY, 0)
+	os.Stdout = null
+	main()
+	os.Exit(0)
 }
 
 func TestVerifCsvDriver(t *testing.T) {
@@ -100,6 +119,99 @@ func TestVerifCsvDriver(t *testing.T) {
 			var sep int
 			fmt.Sscan(f[3], &sep)
 			cfg.separator = rune(sep)
+		case "program":
+			fmt.Fprintln(w, "begin")
+			func() {
+				defer func() {
+					if r := recover(); r != nil {
+						fmt.Fprintln(w, "panic")
+					}
+				}()
+				db := fmt.Sprintf("db%d", caseNo)
+				if err := storage.CreateDB(db); err != nil {
+					fmt.Fprintln(w, "setuperr", err)
+					return
+				}
+				rm, err := storage.OpenRelation(db, false)
+				if err != nil {
+					fmt.Fprintln(w, "setuperr", err)
+					return
+				}
+				if err := rm.CreateTable(&storage.Relation{Fields: fields}, "t"); err != nil {
+					fmt.Fprintln(w, "setuperr", err)
+					return
+				}
+				types, err := colDataTypes(rm, cfg.table, cfg.dstCols)
+				rm.Close()
+				if err != nil || types == nil {
+					fmt.Fprintln(w, "typeserr")
+					return
+				}
+				ts := make([]string, len(types))
+				for i, ty := range types {
+					ts[i] = fmt.Sprint(int(ty))
+				}
+				fmt.Fprintln(w, "types", strings.Join(ts, ","))
+				srcs := make([]string, len(cfg.srcCols))
+				for i, n := range cfg.srcCols {
+					srcs[i] = fmt.Sprint(n)
+				}
+				for run, h := range f[1:] {
+					var raw []byte
+					if h != "-" {
+						raw, _ = hex.DecodeString(h)
+					}
+					rd := csv.NewReader(bytes.NewReader(raw))
+					rd.FieldsPerRecord = -1
+					rd.Comma = cfg.separator
+					for {
+						rec, err := rd.Read()
+						if err != nil {
+							break
+						}
+						parts := make([]string, len(rec))
+						for i, s := range rec {
+							parts[i] = hex.EncodeToString([]byte(s))
+							if s == "" {
+								parts[i] = "-"
+							}
+						}
+						fmt.Fprintln(w, strings.TrimSpace(fmt.Sprintf("prec %d %s", run+1, strings.Join(parts, " "))))
+					}
+					args := []string{"-db", db, "-table", "t", "-dest-cols", strings.Join(cfg.dstCols, ","),
+						"-src-cols", strings.Join(srcs, ","), "-separator", string(cfg.separator)}
+					cmd := exec.Command(os.Args[0], "-test.run=^TestVerifCsvMain$")
+					cmd.Env = append(os.Environ(), "VERIF_CSV_MAIN_ARGS="+strings.Join(args, "\x1f"))
+					cmd.Stdin = bytes.NewReader(raw)
+					if out, err := cmd.CombinedOutput(); err != nil {
+						fmt.Fprintln(w, "runerr", run+1, strings.ReplaceAll(string(out), "\n", " "))
+					}
+				}
+				// the next start of the console
+				if err := storage.InitStorage(); err != nil {
+					fmt.Fprintln(w, "initerr")
+				}
+				rm2, err := storage.OpenRelation(db, false)
+				if err != nil {
+					fmt.Fprintln(w, "openerr")
+					return
+				}
+				defer rm2.Close()
+				rows, _, err := rm2.Fetch("t")
+				if err != nil {
+					fmt.Fprintln(w, "fetcherr")
+					return
+				}
+				for _, r := range rows {
+					vs := make([]string, len(r.Vals))
+					for i, v := range r.Vals {
+						vs[i] = verifVal(v)
+					}
+					fmt.Fprintln(w, "row", strings.Join(vs, " "))
+				}
+			}()
+			fmt.Fprintln(w, "end")
+			w.Flush()
 		case "csv":
 			var raw []byte
 			if len(f) > 1 && f[1] != "-" {
